@@ -44,9 +44,9 @@ Section Ref.
     validate_types P check vis C r =
     match nearest_deco C with None => raise AttributeErrorC | Some D => check_loop check vis (dc_fields D) r end.
   Proof. intros. unfold validate_types. simpl. destruct (nearest_deco C); [rewrite ref_sel|]; reflexivity. Qed.
-  Lemma ref_run_new : forall old v outer (val : bool -> M unit),
-    run_pi P (PFNew old) v outer val =
-    bindM (run_pi P old v (S outer) val) (fun _ => bindM (val (caller_visible v outer)) (fun _ => ret tt)).
+  Lemma ref_run_new : forall old v outer (val : bool -> M unit) (set : name -> value -> M unit),
+    run_pi P (PFNew old) v outer val set =
+    bindM (run_pi P old v (S outer) val set) (fun _ => bindM (val (caller_visible v outer)) (fun _ => ret tt)).
   Proof. reflexivity. Qed.
   Lemma ref_install : install_before P = true.
   Proof. reflexivity. Qed.
